@@ -135,6 +135,31 @@ def gen_doc(rng, budget=14, depth=0, in_raw=None):
     return "".join(out)
 
 
+def gen_chain(rng, depth):
+    """A document nested `depth` elements deep (mostly one chain, with text, comments and side branches on the way)."""
+    opened = []
+    out = []
+    for d in range(depth):
+        name = rng.choice(["div", "p", "b", "span", "ul", "li", "em", "a", "x-y"])
+        out.append("<%s%s>" % (name, ' id="d%d"' % d if rng.random() < 0.1 else ""))
+        opened.append(name)
+        r = rng.random()
+        if r < 0.08:
+            out.append(rng.choice(WORDS))
+        elif r < 0.11:
+            out.append("<!--c%d-->" % d)
+        elif r < 0.14:
+            out.append("<br/>")
+        elif r < 0.16:
+            out.append("<i>side</i>")
+    out.append(rng.choice(["deepest", "<pre> kept \n here </pre>", ""]))
+    for name in reversed(opened):
+        out.append("</%s>" % name)
+        if rng.random() < 0.05:
+            out.append(rng.choice(["tail", " "]))
+    return "".join(out)
+
+
 def gen_attr_markup(rng):
     k = rng.choice([0, 0, 1, 1, 2, 3])
     parts = []
@@ -228,12 +253,27 @@ def rand_string(rng, soup, special=True, rich=True):
     return rng.choice([Script, Stylesheet, TemplateString, RubyTextString])(t)
 
 
+# names that differ from a known one only in case (tag names are case-sensitive in the tree), and namespace prefixes
+# including the empty string (falsy: no prefix is written)
+CASED = ["PRE", "Pre", "TEXTAREA", "Textarea", "DIV", "B", "Script", "BR"]
+PREFIXES = ["", "", "svg", "x", "a.b"]
+
+
 def new_tag(rng, soup, xml, rich=True):
     r = rng.random()
     names = TAGS + VOIDS
     name = rng.choice(names)
     if rich and r < 0.04:
         name = rng.choice(["Div", "a b", "", "1a", "x>y", "\xe9l", "a\"b"])
+    elif rng.random() < (0.05 if rich else 0.02):
+        name = rng.choice(CASED)
+    if ":" not in name and name and rng.random() < 0.05:
+        # an explicit namespace prefix given through the API
+        prefix = rng.choice(PREFIXES)
+        attrs = {rng.choice(ATTRS): rand_attr_value(rng)} if rng.random() < 0.5 else {}
+        if rng.random() < 0.5:
+            return soup.new_tag(name, nsprefix=prefix, attrs=attrs)
+        return Tag(name=name, prefix=prefix, attrs=attrs, is_xml=xml, can_be_empty_element=rng.random() < 0.5)
     attrs = {}
     for _ in range(rng.choice([0, 0, 1, 1, 2, 3])):
         k = rng.choice(ATTRS)
@@ -246,7 +286,7 @@ def new_tag(rng, soup, xml, rich=True):
         if rng.random() < 0.5:
             kw["can_be_empty_element"] = rng.random() < 0.7
         if rng.random() < 0.3:
-            kw["preserve_whitespace_tags"] = set(rng.sample(["pre", "textarea", "b", "p", name or "q"], rng.randint(0, 3)))
+            kw["preserve_whitespace_tags"] = set(rng.sample(["pre", "textarea", "b", "p", "PRE", "Pre", name or "q"], rng.randint(0, 3)))
         if ":" in name and rng.random() < 0.7:
             p, n = name.split(":", 1)
             with warnings.catch_warnings():
@@ -344,7 +384,7 @@ def gen_api_tree(rng, xml=False, steps=None, rich=True, start=None, void=None):
                 elif c < 0.95:
                     t = rng.choice(tags)
                     if t is not soup:
-                        t.name = rng.choice(TAGS + VOIDS)
+                        t.name = rng.choice(CASED) if rng.random() < 0.15 else rng.choice(TAGS + VOIDS)
                 elif c < 0.96:
                     t = rng.choice(tags)
                     if t is not soup:
@@ -380,13 +420,63 @@ def enc_rval(v, enc_name="utf-8"):
     return [3, str(v)]
 
 
+import contextlib, sys
+
+
+@contextlib.contextmanager
+def deep_recursion(limit=20000):
+    """For the harness's own recursive helpers on deeply nested trees (never around calls into the library)."""
+    old = sys.getrecursionlimit()
+    sys.setrecursionlimit(max(old, limit))
+    try:
+        yield
+    finally:
+        sys.setrecursionlimit(old)
+
+
+def enc_iter(x):
+    """common.enc without recursion (same output): nested lists of a deeply nested tree exceed the interpreter's
+    C-level recursion limit in the recursive encoder."""
+    out = []
+    stack = [x]
+    CLOSE = object()
+    while stack:
+        y = stack.pop()
+        if y is CLOSE:
+            out.append(")")
+        elif y is None:
+            out.append("()")
+        elif isinstance(y, bool):
+            out.append("1" if y else "0")
+        elif isinstance(y, int):
+            out.append(str(y))
+        elif isinstance(y, str):
+            out.append("(" + " ".join(str(ord(c)) for c in y) + ")")
+        elif isinstance(y, (bytes, bytearray)):
+            out.append("(" + " ".join(str(b) for b in y) + ")")
+        elif isinstance(y, (list, tuple)):
+            out.append("(")
+            stack.append(CLOSE)
+            stack.extend(reversed(y))
+        else:
+            raise TypeError("cannot encode %r" % (y,))
+    # tokens separated by single spaces, no space after "(" or before ")" — as common.enc writes them
+    text = " ".join(out)
+    return text.replace("( ", "(").replace(" )", ")")
+
+
 def dump(el, enc_name="utf-8"):
+    with deep_recursion():
+        return _dump(el, enc_name)
+
+
+def _dump(el, enc_name="utf-8"):
     """The element (walking .contents) in the model's encoding. Iterative for deep trees is not needed here."""
     if isinstance(el, Tag):
         pw = el.preserve_whitespace_tags
         attrs = [] if el.attrs is None else [[str(k), enc_rval(v, enc_name)] for k, v in el.attrs.items()]
         return [0, el.name, [] if el.prefix is None else [el.prefix], attrs, bool(el.hidden),
-                el.can_be_empty_element is True, sorted(pw) if pw else [], [dump(c, enc_name) for c in el.contents]]
+                el.can_be_empty_element is True, sorted(pw) if pw else [], [_dump(c, enc_name) for c in el.contents]]
     cid = CLASS_ID.get(type(el))
     if cid is None:
         raise TypeError("string class not known to the model: %r" % type(el))
